@@ -7,10 +7,11 @@ from . import common as c
 RADIX_FN = {10: "", 2: "_binary", 8: "_octal", 16: "_hex"}
 
 
-def shaped(name, s, w, f, radix, sign, ni, nk, unwind=24, point_when_no_frac=False):
+def shaped(name, s, w, f, radix, sign, ni, nk, unwind=None, point_when_no_frac=False, forms="ovf"):
     """Rust source of a harness parsing [sign] ni digits [. nk digits] with symbolic digits."""
     t, inner = c.ty(s, w, f), c.inner(s, w)
     ln = (1 if sign else 0) + ni + (1 if (nk or point_when_no_frac) else 0) + nk
+    unwind = unwind or (ln + 8)
     L = ["#[kani::proof]", "#[kani::unwind(%d)]" % unwind, "pub fn %s() {" % name, "    type L = %s;" % t,
          "    let mut buf = [b'0'; %d];" % ln, "    let mut n: u64 = 0;", "    let mut p = 0usize;"]
     if sign:
@@ -35,7 +36,10 @@ def shaped(name, s, w, f, radix, sign, ni, nk, unwind=24, point_when_no_frac=Fal
     L.append("    kani::cover!(!want.overflow && n != 0, \"W:non-zero literal in range\");" if not (s == "U" and sign == "-") else "    kani::cover!(n != 0, \"W:non-zero literal\");")
     sfx = RADIX_FN[radix]
     plain = "<L as core::str::FromStr>::from_str(s)" if radix == 10 else "L::from_str%s(s)" % sfx
-    L.append("    check_parse::<L>(want, neg, L::overflowing_from_str%s(s), L::wrapping_from_str%s(s), L::saturating_from_str%s(s), %s);" % (sfx, sfx, sfx, plain))
+    if forms == "all":
+        L.append("    check_parse::<L>(want, neg, L::overflowing_from_str%s(s), L::wrapping_from_str%s(s), L::saturating_from_str%s(s), %s);" % (sfx, sfx, sfx, plain))
+    else:
+        L.append("    check_parse_ovf::<L>(want, L::overflowing_from_str%s(s));" % sfx)
     L.append("}")
     return "\n".join(L)
 
@@ -82,10 +86,6 @@ def tie_harness(name, s, w, f, r, neg, win_pos, unwind):
          "    match L::overflowing_from_str(s) { Ok((v, o)) => { assert!(!o, \"tie-anchored literal is in range\"); "
          "assert!(v.to_bits() == want, \"literal below / at / above a rounding tie rounds to nearest, ties to even\"); } "
          "Err(_) => assert!(false, \"well-formed literal parses\") }",
-         "    match <L as core::str::FromStr>::from_str(s) { Ok(v) => assert!(v.to_bits() == want, \"from_str agrees\"), Err(_) => assert!(false, \"from_str parses an in-range literal\") }",
-         "    // a proper prefix of the tie's expansion lies below the tie; the tie followed by 0..01 lies above it",
-         "    let pre = as_str(&buf[..%d]);" % (len(text) - 1),
-         "    if wv == tv { match L::overflowing_from_str(pre) { Ok((v, o)) => assert!(!o && v.to_bits() == %s, \"a proper prefix of a tie's expansion is below the tie\"), Err(_) => assert!(false, \"prefix parses\") } }" % bits(lo),
          "}"]
     return "\n".join(L), text
 
@@ -94,35 +94,39 @@ def plan(tier, seed, kf_ids):
     rnd = random.Random(seed + 808)
     q = tier == "quick"
     jobs = []
-    # ---- tokeniser / totality
-    for (s, f, ln) in ((("I", 4, 5),) if q else (("I", 4, 6), ("U", 0, 6), ("I", 8, 6))):
-        name = "c08_tokens_%s_len%d" % (c.tag(s, 8, f), ln)
-        code = "#[kani::proof]\n#[kani::unwind(%d)]\npub fn %s() { tokens::<%s, %d>(); }" % (ln + 4, name, c.ty(s, 8, f), ln)
-        jobs.append(Job(name, code, "for every ASCII string of length <= %d: overflowing/wrapping/saturating_from_str and the "
-                        "binary/octal/hex forms into %s are Ok exactly for well-formed literals of their radix and never panic" % (ln, c.alias(s, 8, f)),
-                        timeout=3000, inst=c.alias(s, 8, f), bounds="all 128^<=%d ASCII strings" % ln))
+    # ---- tokeniser / totality (one parser call per query)
+    for (s, f, ln) in ((("I", 4, 4),) if q else (("I", 4, 5), ("U", 0, 5))):
+        for radix in ((10, 16) if q else (10, 2, 8, 16)):
+            name = "c08_tokens_%s_len%d_r%d" % (c.tag(s, 8, f), ln, radix)
+            code = "#[kani::proof]\n#[kani::unwind(%d)]\npub fn %s() { tokens::<%s, %d, %d>(); }" % (ln + 4, name, c.ty(s, 8, f), ln, radix)
+            jobs.append(Job(name, code, "for every ASCII string of length <= %d: the radix-%d overflowing parser into %s is Ok exactly for "
+                            "well-formed literals and never panics" % (ln, radix, c.alias(s, 8, f)),
+                            timeout=2400, inst=c.alias(s, 8, f), bounds="all 128^<=%d ASCII strings" % ln))
     # ---- exact value, 8-bit types, all digits symbolic
-    shapes10 = [(1, 0), (3, 0), (1, 3), (0, 4), (1, 5), (2, 4)] if q else [(1, 0), (2, 0), (3, 0), (1, 1), (1, 2), (1, 3), (0, 3), (0, 4), (1, 4), (0, 5), (1, 5), (2, 4), (3, 3)]
-    fr8 = [0, 4, 8] if q else list(range(9))
+    shapes10 = [(3, 0), (1, 3), (0, 4), (1, 5)] if q else [(1, 0), (2, 0), (3, 0), (1, 1), (1, 2), (1, 3), (0, 3), (0, 4), (1, 4), (0, 5), (1, 5), (2, 4), (3, 3)]
     for s in ("U", "I"):
+        fr8 = ([0, 4] if s == "U" else [4, 8]) if q else list(range(9))
         for f in fr8:
             for (ni, nk) in shapes10:
-                signs = ["", "-"] if (q and (ni, nk) in ((1, 3), (0, 4), (1, 5))) or not q else [""]
+                signs = ["", "-"] if (q and (ni, nk) in ((1, 3), (0, 4))) or not q else [""]
                 if not q and (ni, nk) == (1, 3):
                     signs.append("+")
                 for sg in signs:
                     nm = "c08_dec_%s_%s%d_%d" % (c.tag(s, 8, f), {"": "p", "-": "m", "+": "q"}[sg], ni, nk)
-                    jobs.append(Job(nm, shaped(nm, s, 8, f, 10, sg, ni, nk),
-                                    "every decimal literal '%s%s%s' (d = any digit) into %s: all four forms return the nearest "
-                                    "representable value, ties to even, with exact overflow handling (oracle: exact u64 division)"
-                                    % (sg, "d" * ni, ("." + "d" * nk) if nk else "", c.alias(s, 8, f)),
+                    allf = (ni, nk) == (3, 0) or ((ni, nk) == (1, 3) and sg == "-")
+                    jobs.append(Job(nm, shaped(nm, s, 8, f, 10, sg, ni, nk, forms="all" if allf else "ovf"),
+                                    "every decimal literal '%s%s%s' (d = any digit) into %s: %s the nearest representable value, ties "
+                                    "to even, with exact overflow handling (oracle: exact u64 division)"
+                                    % (sg, "d" * ni, ("." + "d" * nk) if nk else "", c.alias(s, 8, f),
+                                       "all four forms return" if allf else "overflowing_from_str returns"),
                                     timeout=1800, inst=c.alias(s, 8, f), bounds="all 10^%d digit strings of this shape" % (ni + nk)))
     # other radices, 8-bit types
     for s in ("U", "I"):
         for f in ([4] if q else [0, 3, 4, 8]):
-            for radix, shapes in ((16, [(2, 0), (1, 2), (0, 3)]), (2, [(4, 5), (0, 9)]), (8, [(3, 0), (1, 3), (0, 4)])):
+            for radix, shapes in ((16, [(1, 2)] if q else [(2, 0), (1, 2), (0, 3)]), (2, [(4, 5)] if q else [(4, 5), (0, 9)]),
+                                  (8, [(1, 3)] if q else [(3, 0), (1, 3), (0, 4)])):
                 for (ni, nk) in shapes:
-                    for sg in (["", "-"] if nk else [""]):
+                    for sg in (["", "-"] if nk and not q else [""]):
                         nm = "c08_r%d_%s_%s%d_%d" % (radix, c.tag(s, 8, f), {"": "p", "-": "m"}[sg], ni, nk)
                         jobs.append(Job(nm, shaped(nm, s, 8, f, radix, sg, ni, nk),
                                         "every radix-%d literal of shape %s%d.%d digits into %s: nearest, ties to even, exact overflow"
@@ -133,30 +137,29 @@ def plan(tier, seed, kf_ids):
         for f in ([8] if q else [0, 8, 16]):
             for (ni, nk) in ([(0, 7)] if q else [(1, 6), (0, 7), (1, 7)]):
                 nm = "c08_dec_%s_p%d_%d" % (c.tag(s, 16, f), ni, nk)
-                jobs.append(Job(nm, shaped(nm, s, 16, f, 10, "", ni, nk, unwind=30),
+                jobs.append(Job(nm, shaped(nm, s, 16, f, 10, "", ni, nk),
                                 "every decimal literal with %d+%d digits into %s (slow path from 7 fraction digits): nearest, ties "
                                 "to even, exact overflow" % (ni, nk, c.alias(s, 16, f)), timeout=3000, inst=c.alias(s, 16, f),
                                 bounds="all 10^%d digit strings of this shape" % (ni + nk)))
     # ---- tie-anchored literals for every width
     for s in ("U", "I"):
-        for w in (8, 16, 32, 64, 128):
-            fl = sorted(set([w // 2, w] + ([rnd.randrange(2, w)] if q else [2, w - 1, rnd.randrange(2, w), rnd.randrange(2, w)])))
+        for w in ((8, 16) if q else (8, 16, 32)):
+            fl = sorted(set([w // 2, w] + ([] if q else [2, w - 1, rnd.randrange(2, w), rnd.randrange(2, w)])))
             for f in fl:
                 top = (1 << (w - (1 if s == "I" else 0))) - 2
-                rs = [rnd.randrange(0, top), rnd.choice([0, 1, top - 1, (top // 5) * 1, (top // 5) * 2 + 1])]
+                rs = [rnd.choice([rnd.randrange(0, top), 0, 1, top - 1, (top // 5) * 2 + 1])] if q else [rnd.randrange(0, top), rnd.choice([0, 1, top - 1, (top // 5) * 1, (top // 5) * 2 + 1])]
                 if not q:
                     rs += [rnd.randrange(0, top) for _ in range(3)]
                 for ri, r in enumerate(rs):
                     ndig = f + 1
-                    wins = sorted(set([ndig - 3] + ([max(0, min(ndig - 3, {8: 3, 16: 6, 32: 13, 64: 27, 128: 54}[w] - 1))] if not q or ri == 0 else [])))
+                    wins = sorted(set([ndig - 3] + ([max(0, min(ndig - 3, {8: 3, 16: 6, 32: 13, 64: 27, 128: 54}[w] - 1))] if not q else [])))
                     for wp in wins:
                         neg = (s == "I") and rnd.random() < 0.5
                         nm = "c08_tie_%s_r%d_w%d%s" % (c.tag(s, w, f), ri, wp, "m" if neg else "")
                         code, text = tie_harness(nm, s, w, f, r, neg, wp, unwind=len(text_len(r, f, neg)) + 6)
                         jobs.append(Job(nm, code, "literals around the rounding tie between %d and %d ulps of %s: the tie's exact decimal "
-                                        "expansion with 3 symbolic digits at fraction position %d (below / equal / above the tie) and its "
-                                        "proper prefix: nearest, ties to even" % (r, r + 1, c.alias(s, w, f), wp),
-                                        timeout=1800, inst=c.alias(s, w, f), bounds="1000 literals of %d characters + prefix" % len(text)))
+                                        "expansion with 3 symbolic digits at fraction position %d (below / equal / above the tie): nearest, ties to even" % (r, r + 1, c.alias(s, w, f), wp),
+                                        timeout=1800, inst=c.alias(s, w, f), bounds="1000 literals of %d characters" % len(text)))
     return {
         "feature": "c08",
         "jobs": jobs,
